@@ -47,14 +47,22 @@ def main():
     if rc != 0:
         print("does not apply to /repo:", out)
         return 2
+    saved_ev = {}
     try:
         for p in [prop] + extra:
+            # the evidence files describe the UNCHANGED tree: keep them out of reach of a run against a seeded change
+            evp = os.path.join(VERIF, "evidence", f"{p}.json")
+            if os.path.exists(evp) and p not in saved_ev:
+                saved_ev[p] = open(evp, "rb").read()
             rcc, outc = sh(f"./check {p} --tier quick", cwd=VERIF, timeout=3000)
             viol = [l for l in outc.splitlines() if l.startswith("VIOLATION")]
             summ = [l for l in outc.splitlines() if l.startswith(p + " tier=")]
             results[p] = {"exit": rcc, "violation_lines": viol[:4], "summary": summ[-1] if summ else outc[-300:]}
             print(f"   check {p}: exit {rcc} {viol[:2]} {summ[-1] if summ else ''}")
     finally:
+        for p, data in saved_ev.items():
+            with open(os.path.join(VERIF, "evidence", f"{p}.json"), "wb") as fh:
+                fh.write(data)
         sh("git -C /repo checkout -- .")
         st = sh("git -C /repo status --short")[1]
         if st.strip():
